@@ -10,6 +10,8 @@ Element specs: see `specOf`.  Requests:
       safe  = `preSafeB` of the pre-processing part (null if the FillComputeSeq cannot be built)
   {"op":"split","branches":[[spec..]..],"bufsize":null|n,"flow":[v..]}
       -> {"e":..,"phase":"init"} | {"r":[[i,v]..],"t":null|exc}     (values tagged with their branch)
+  {"op":"msplit","branches":[{"ty":"chain"|"seq"|"freq"|"source","els":[spec..],"vals":[v..]}..],"bufsize":null|n,"flow":[v..]}
+      -> like "split": a Split whose branches are of any type (`driveSplitM`)
   {"op":"adapter","adapter":"Call"|"Run"|"FillInto"|"FillCompute"|"SourceEl","attrs":{name:0|1|2},
    "callable":bool,"split":bool,"none":bool,"name":null|str,"name2":null|str}
       -> {"mode":..} | {"e":"LenaTypeError"}
@@ -313,6 +315,16 @@ def handle (j : Json) : Json :=
     match (arr? (getD j "branches")).bind (fun a => a.toList.mapM specsOf), valuesOf (getD j "flow") with
     | some bs, some flow => taggedJson (driveSplitFill bs flow)
     | _, _ => err "bad splitfc args"
+  | some "msplit" =>
+    let branchOf (b : Json) : Option BranchSpec :=
+      match str? (getD b "ty") with
+      | some "source" => do some (.source (← valuesOf (getD b "vals")) (← specsOf (getD b "els")))
+      | some _ => (specsOf (getD b "els")).map BranchSpec.tuple
+      | none => none
+    match (arr? (getD j "branches")).bind (fun a => a.toList.mapM branchOf), optIntJ (getD j "bufsize"),
+        valuesOf (getD j "flow") with
+    | some bs, some b, some flow => taggedJson (driveSplitM bs b flow)
+    | _, _, _ => err "bad msplit args"
   | some "fillseq_init" =>
     match specsOf (getD j "args") with
     | some args =>
